@@ -21,6 +21,14 @@ RoundTrip == DaysFromCivil(C[1], C[2], C[3]) = day /\ C[2] \in 1..12 /\ C[3] \in
 Advances == LET n == CivilFromDays(day + 1) IN
               IF C[3] < DaysInMonth(C[1], C[2]) THEN n = <<C[1], C[2], C[3] + 1>>
               ELSE IF C[2] < 12 THEN n = <<C[1], C[2] + 1, 1>> ELSE n = <<C[1] + 1, 1, 1>>
+\* the calendar repeats every 400 years = 146 097 days = 20 871 weeks: the conversion functions use the era only as an additive
+\* term (zz \div 146097, era * 146097, era * 400), so a result for every day of ONE era (MCCalendar_era.cfg) carries over to every
+\* other era; checked here for 12 eras to either side (9 600 years)
+ERA == 146097
+EraNegLo == -11017              \* (a cfg file cannot spell a negative number) Lo = 2000-03-01
+EraShift == \A k \in -12..12 : /\ CivilFromDays(day + k * ERA) = <<C[1] + 400 * k, C[2], C[3]>>
+                               /\ Weekday(day + k * ERA) = Weekday(day)
+                               /\ DaysInMonth(C[1] + 400 * k, C[2]) = DaysInMonth(C[1], C[2])
 WeekCycle == Weekday(day + 1) = (Weekday(day) + 1) % 7 /\ Weekday(0) = 4 /\ Weekday(day) \in 0..6
 Instants == {<<day, ms>> : ms \in Times}
 FloorOK == \A u \in Units, t \in Instants : IsFloor(u, t, Floor(u, t))
